@@ -95,9 +95,9 @@ func c18Gen(r *rand.Rand, tier string) []Case {
 		top := new(big.Int).Lsh(one, w)
 		half := new(big.Int).Rsh(top, 1)
 		for _, p := range [][3]*big.Int{
-			{half, new(big.Int).Sub(top, one), half},                                        // tip, cap, base: tip+base = 2^w > cap
-			{new(big.Int).Sub(top, one), new(big.Int).Sub(top, one), one},                   // tip+base = 2^w, cap = 2^w−1
-			{half, new(big.Int).Lsh(top, 1), new(big.Int).Add(half, big.NewInt(5))},         // cap above the word
+			{half, new(big.Int).Sub(top, one), half},                                          // tip, cap, base: tip+base = 2^w > cap
+			{new(big.Int).Sub(top, one), new(big.Int).Sub(top, one), one},                     // tip+base = 2^w, cap = 2^w−1
+			{half, new(big.Int).Lsh(top, 1), new(big.Int).Add(half, big.NewInt(5))},           // cap above the word
 			{new(big.Int).Sub(half, one), new(big.Int).Sub(top, one), new(big.Int).Set(half)}, // tip+base = 2^w−1 = cap
 		} {
 			out = append(out, Case{fmt.Sprintf("tx 2 11235 7 21000 0 %s %s 1234 5 - - ? ? ? %s # key=1 unprot=0", p[0], p[1], p[2])})
